@@ -541,6 +541,15 @@ impl HashColumn {
 		if tables.ref_count.is_some() {
 			tables.get_ref_count().flush()?;
 		}
+		// Older tables that still wait to be reindexed receive writes too (removals, moved
+		// values, reference count changes of entries they still hold).
+		let reindex = self.reindex.read();
+		for entry in reindex.queue.iter() {
+			match entry {
+				ReindexEntry::Index(table) => table.flush()?,
+				ReindexEntry::RefCount(table) => table.flush()?,
+			}
+		}
 		Ok(())
 	}
 
